@@ -180,14 +180,16 @@ CLAIMED["C11"] = dict(
          "checked operations answer Err exactly when out of bounds / invalid for the format; lifted to all histories by "
          "induction (C11_run_refines, C11_reachable_wf). Proved for Bytes, ASCII, Latin1 and UTF8 (laws_utf8: the futf "
          "prefix/suffix checks are exact on parts of valid strings; C11_utf8_valid: a UTF-8 tendril always holds "
-         "well-formed UTF-8). Below 2^30 bytes the model panics only where the specification does "
+         "well-formed UTF-8) and for WTF-8 (Props/C11Wtf8.lean: the same refinement with the concatenation FIX-UP, against "
+         "Spec.concatWtf8 - decode both operands as generalised UTF-8, join a lead + trail surrogate at the seam into the "
+         "supplementary code point, re-encode - written from the WTF-8 document; C11_wtf8_fixup_agrees: WTF8::fixup = that "
+         "specification on every pair of well-formed operands; C11_wtf8_valid: every slot and every buffer always holds "
+         "well-formed WTF-8, incl. the zero-copy merge of adjacent views, which never calls fixup). Below 2^30 bytes the model panics only where the specification does "
          "(C11_no_spurious_panic). The model is tied to the Rust by the tendril correspondence (result, bytes, "
          "inline/owned/shared kind, sharing groups, allocation sizes after every op; 5 formats × 2 atomicities).",
-    note="Partial: WTF-8 (the only format with a concatenation fix-up) cannot satisfy Laws (plain append; "
-         "not_laws_wtf8); its format laws with fix-up are proved (laws_wtf8_partial : LawsFx) but the refinement "
-         "theorem is not yet stated over them (zero-copy merge of adjacent views needs a buffer-level validity "
-         "invariant) — WTF-8 behaviour is covered by the safety theorems of C12, the correspondence and the Python "
-         "reference. The check found a genuine defect "
+    note="WTF-8 cannot satisfy Laws (plain append; not_laws_wtf8), so its refinement is proved over LawsFx with the buffer-"
+         "level validity invariant BufWf (histories without DerefMut byte stores, which tendril offers for Bytes only). The "
+         "check found a genuine defect "
          "there (WTF8::validate accepted a stray continuation byte after a 2-/3-byte character and skipped what "
          "followed: C11_witness_wtf8_validate_pinned), fixed in /repo by 218f57f; the model follows the fix "
          "(C11_wtf8_validate_rejects_stray) and corpus/C11/wtf8_validate.case keeps the witnesses as regression "
@@ -433,29 +435,34 @@ CLAIMED["C09"] = dict(
 CLAIMED["C01"] = dict(
     engine="tok", design_ref="6.1",
     technique="independent executable specification of HTML Standard 13.2.5 in Lean 4 (all 80 states, transcribed state by "
-              "state without reading html5ever's tokenizer or the model's transition functions) + Lean proofs about the "
-              "specification (totality within a linear step bound via a per-step measure over all 80 states, exactly one EOF, "
-              "newline normalisation, attribute de-duplication) + differential testing of the REAL tokenizer against the "
-              "specification on an exhaustive start-state x character-class x suffix cover, bounded-exhaustive token "
-              "sequences and seeded tag soup",
-    text="PARTIAL with respect to DESIGN 6.1: the refinement theorem 'model of html5ever = WHATWG specification for all inputs' "
-         "is NOT proved. Proved (kernel, axioms within propext/Classical.choice/Quot.sound) about the specification "
-         "H5V.Spec.HtmlTokenizer for all inputs, start states, last-start-tag names and tree-construction feedbacks: every "
-         "step consumes input or strictly lowers a state rank (C01_spec_step_measure), hence tokenize always returns within "
-         "8(|x|+1)+1 steps (C01_spec_total); the result contains exactly one EOF token, last (C01_spec_single_eof); "
-         "normalizeNewlines is idempotent, leaves no CR and never lengthens; emitted tags have pairwise distinct attribute "
-         "names, first occurrence kept, source order kept. Decided on every run on the real code: the tokens html5ever "
-         "delivers (parse errors, pause markers, line numbers and empty character tokens removed, character runs merged, NUL "
-         "kept distinct) equal the specification's tokens on ~4.7e5 (quick) / 2.1e6 (thorough) cases: every start state x 41 "
-         "character classes x 6 suffixes x last-start-tag relations x CDATA answers, look-ahead keyword families, the "
-         "attribute value states entered with a named attribute, 15 bounded-exhaustive token grammars, character-reference "
-         "families, seeded soup under RCDATA/RAWTEXT/script/PLAINTEXT/CDATA feedback, soup from random start states.",
-    note="Trusted: Lean kernel; the hand transcription of the standard (written from memory of its text, no network; unsure "
-         "spots listed in the work-package report); frozen entity/C1 reference tables; the harness's recording sink. Outside "
-         "the comparison: the two html5ever states without a counterpart in the standard "
-         "(RawEndTagOpen/RawEndTagName(ScriptDataEscaped(DoubleEscaped))); attribute values of runs started inside an "
-         "attribute value state (no current attribute exists: undefined by the standard, html5ever keeps the orphan value "
-         "for the next attribute). A disagreement is reported as a concrete VIOLATION with the input.")
+              "state by a separate agent without reading html5ever's tokenizer or the model) + Lean proof that the MODEL of "
+              "html5ever's tokenizer produces the specification's tokens for every input (simulation relation through all "
+              "state groups, look-ahead states, character references, EOF; ~9000 lines) + proofs about the specification "
+              "itself + model/code correspondence + direct differential of the REAL tokenizer against the specification",
+    text="Proved (Props/C01Sim.lean, C01_model_eq_spec; kernel, axioms within propext/Classical.choice/Quot.sound): for EVERY "
+         "input string, every start state reachable through TokenizerOpts.initial_state that the standard knows (65 of 73; "
+         "see note), every last-start-tag name, both discard_bom settings and every sink policy that answers as the "
+         "standard's tree-construction feedback (tokenizer-state switches on start tags and the CDATA answer, both allowed to "
+         "depend on the whole token history), feed + end of the model of tokenizer/mod.rs + char_ref/mod.rs succeed and the "
+         "tokens delivered - parse errors, pause markers and line numbers dropped, character tokens split into characters "
+         "(or merged: C01_model_eq_spec_merged) - are exactly Spec.tokenize of the newline-normalised input: doctypes with "
+         "ids and force-quirks, tags with lower-cased names, de-duplicated attributes in source order, self-closing and "
+         "duplicate flags, comments, characters with NUL kept distinct, one final EOF. Corollaries: either exact_errors value "
+         "(C01_model_eq_spec_exact, via C08), every chunking (C01_model_eq_spec_chunked, via C03). The simulation relation "
+         "accounts for html5ever's differences in mechanism: inline CR handling vs up-front normalisation, parametrised "
+         "states, un-consuming a failed reference vs the standard's temporary buffer, de-duplication at attribute end vs at "
+         "emission, CDATA text held in temp_buf, big-step EOF. About the specification itself: total within 8(|x|+1)+1 steps, "
+         "exactly one EOF last, newline normalisation idempotent, emitted tags have distinct attribute names. The REAL "
+         "tokenizer is tied to the model by the tok correspondence and is also compared directly with the executable "
+         "specification on every case (~4.9e5 quick / 2.2e6 thorough: every start state x 41 character classes x 6 suffixes "
+         "x last-start-tag relations x CDATA answers, look-ahead keyword families, 15 bounded-exhaustive token grammars, "
+         "character-reference families incl. the u32 wrap points, chunked families, seeded soup).",
+    note="Trusted: Lean kernel; the hand transcription of the standard (written from memory of its text, no network); frozen "
+         "entity/C1 reference tables; the model + tok correspondence; the harness's recording sink. Outside the theorem: the "
+         "two html5ever states without a counterpart in the standard (RawEndTagOpen/RawEndTagName(ScriptDataEscaped("
+         "DoubleEscaped))) and runs started inside an attribute name/value state (no current attribute exists: undefined by "
+         "the standard, html5ever keeps the orphan value); sink policies that pause the tokenizer (Script / EncodingIndicator): "
+         "covered by C03's pause theorems and the correspondence.")
 
 CLAIMED["C04"] = dict(
     engine="tok+xmltok+total", design_ref="6.4",
